@@ -15,7 +15,10 @@ import numpy as np
 
 from . import c12 as _c12
 
-RULE = ('sparse inputs with un-summed repeated entries (coo from transition lists incl. the real '
+RULE = ('LARGE sparse family straddling the size switch of eigenspectrum (999/1000/1001, 1024, 1500, 2048 states; '
+        'periodic chains of period 2/3/4/6, near-periodic, metastable blocks, aperiodic; csr/csc/coo/lil/dok/bsr; '
+        'normalize called repeatedly on the same matrix because ARPACK starts from a random vector; transpose once; '
+        'oracle = direct sparse solve); sparse inputs with un-summed repeated entries (coo from transition lists incl. the real '
         'assigns_to_counts output, non-canonical csr/csc), structured matrices with pendant states / self-plus-one states / nearly closed pairs (see C12) and '
         'random non-negative integer (and a few dyadic real) count matrices with 1..8 states, positive '
         'row sums and a strongly connected graph (random Hamiltonian cycle laid over the draw); each is '
@@ -25,7 +28,7 @@ RULE = ('sparse inputs with un-summed repeated entries (coo from transition list
         'non-trivial when the matrix is not already row-stochastic; distinct by (matrix, builder, '
         'container, prior, flag)')
 ASSUMPTIONS = [
-    'LAPACK eig returns a left eigenvector for eigenvalue 1 (contract of normalize_stationary_of_contract); '
+    'LAPACK eig returns a left eigenvector for eigenvalue 1 (C04_solver_contract; normalize_stationary_partial / normalize_stationary_of_solver_contract); '
     'the run compares its normalised output with the exact stationary vector (Gauss-Jordan over Rat, '
     'accepted only with an exact residual certificate) within 1e-9',
     'scipy result containers of A + A.T, A + scalar, A + ndarray, A / 2 are a measured table '
@@ -381,6 +384,225 @@ def check_call(ctx, C, builder, cont, prior, calc, mvals, mcont, dense_ref, zero
     return (Td, pi)
 
 
+# ----------------------------------------------------------------------------- large sparse family
+# `eigenspectrum` switches code path on the size: sparse input with < 1000 states is densified and
+# goes through LAPACK, >= 1000 states go through ARPACK (`eigs(..., which="LR")`, random start
+# vector).  The family straddles that threshold and uses periodic chains, whose spectrum has
+# other eigenvalues of modulus 1 (roots of unity) next to the Perron root.
+LARGE_SIZES = [999, 1000, 1001, 1024, 1500, 2048]
+LARGE_KINDS = ['periodic-2', 'periodic-3', 'periodic-4', 'periodic-6', 'near-periodic-3',
+               'near-periodic-2', 'metastable-blocks', 'aperiodic-random']
+TOL_LARGE_STAT = 1e-8       # max |pi T - pi|, |sum pi - 1|; ARPACK runs with tol=1e-30 (machine precision)
+TOL_LARGE_PI = 1e-6         # against the direct sparse solve
+
+
+def gen_large_counts(gseed, n, kind):
+    """strongly connected integer counts (csr) with ~4 non-zeros per row.
+    periodic-k: states in k groups visited in fixed order (period k), every state has an incoming
+    count from the previous group, random extra targets give a healthy spectral gap;
+    near-periodic-k: the same plus a few rare self/backward counts (aperiodic, eigenvalues close to
+    the roots of unity); metastable-blocks: 4 blocks, heavy counts inside, rare counts between;
+    aperiodic-random: random sparse plus a ring plus self counts."""
+    import scipy.sparse as sp
+    rng = np.random.default_rng(gseed)
+    for attempt in range(50):
+        rows, cols, dat = [], [], []
+
+        def add(i, j, c):
+            rows.append(int(i)); cols.append(int(j)); dat.append(int(c))
+        if kind.startswith('periodic') or kind.startswith('near-periodic'):
+            k = int(kind.split('-')[-1])
+            g = np.arange(n) % k
+            members = [np.flatnonzero(g == a) for a in range(k)]
+            for a in range(k):
+                src, dst = members[a], members[(a + 1) % k]
+                for j in dst:                              # every state is entered from the previous group
+                    add(rng.choice(src), j, rng.integers(1, 10))
+                for i in src:                              # and leaves to 3 random states of the next one
+                    for j in rng.choice(dst, size=3, replace=False):
+                        add(i, j, rng.integers(1, 10))
+            if kind.startswith('near'):
+                for i in rng.choice(n, size=max(3, n // 100), replace=False):
+                    add(i, i if rng.random() < 0.5 else rng.integers(0, n), 1)
+        elif kind == 'metastable-blocks':
+            b = np.arange(n) * 4 // n
+            members = [np.flatnonzero(b == a) for a in range(4)]
+            for a in range(4):
+                for i in members[a]:
+                    add(i, i, rng.integers(5, 30))
+                    for j in rng.choice(members[a], size=3, replace=False):
+                        add(i, j, rng.integers(5, 30))
+                for _ in range(6):                         # rare exchanges between neighbouring blocks
+                    add(rng.choice(members[a]), rng.choice(members[(a + 1) % 4]), 1)
+                    add(rng.choice(members[(a + 1) % 4]), rng.choice(members[a]), 1)
+            perm = rng.permutation(n)                      # a weak ring keeps it strongly connected
+            for a in range(n):
+                if b[perm[a]] == b[perm[(a + 1) % n]]:
+                    add(perm[a], perm[(a + 1) % n], 1)
+        elif kind == 'aperiodic-random':
+            for i in range(n):
+                add(i, (i + 1) % n, rng.integers(1, 10))
+                add(i, i, rng.integers(1, 10))
+                for j in rng.integers(0, n, size=2):
+                    add(i, j, rng.integers(1, 20))
+        else:
+            raise ValueError(kind)
+        C = sp.coo_matrix((np.array(dat, dtype=np.int64), (rows, cols)), shape=(n, n)).tocsr()
+        C.sum_duplicates()
+        from scipy.sparse.csgraph import connected_components
+        ncomp, _ = connected_components(C, directed=True, connection='strong')
+        if ncomp == 1 and np.all(np.asarray(C.sum(axis=1)).ravel() > 0):
+            return C
+    raise RuntimeError('no strongly connected %s matrix with %d states' % (kind, n))
+
+
+def stationary_direct(Tcsr):
+    """oracle: solve pi (T - I) = 0, sum pi = 1 by sparse LU; returns (pi, own residual)"""
+    import scipy.sparse as sp
+    import scipy.sparse.linalg as spl
+    n = Tcsr.shape[0]
+    A = (Tcsr.T - sp.identity(n, format='csr')).tolil()
+    A[n - 1, :] = 1.0
+    b = np.zeros(n)
+    b[n - 1] = 1.0
+    with warnings.catch_warnings():
+        warnings.simplefilter('ignore')
+        pi = spl.spsolve(A.tocsc(), b)
+    res = max(float(np.max(np.abs(Tcsr.T @ pi - pi))), abs(float(pi.sum()) - 1))
+    return pi, res
+
+
+def check_large(ctx, gseed, n, kind, cont, calls, with_dense=False):
+    """normalize (repeated calls: ARPACK starts from a random vector) and transpose on one large matrix"""
+    from enspara.msm import builders
+    import scipy.sparse as sp
+    C = gen_large_counts(gseed, n, kind)
+    rep = {'family': 'large-sparse', 'gseed': int(gseed), 'n': int(n), 'kind': kind, 'container': cont,
+           'calls': int(calls)}
+    rs = np.asarray(C.sum(axis=1)).ravel().astype(float)
+    Texp = sp.diags(1.0 / rs) @ C.astype(float)
+    Texp = Texp.tocsr()
+    pi0, ores = stationary_direct(Texp)
+    if not (ores <= 1e-11 and np.all(pi0 > 0)):
+        ctx.skip('large-sparse: the direct-solve oracle does not certify itself (residual %.1e)' % ores)
+        return
+    arg0 = getattr(sp, cont)(C) if cont != 'ndarray' else C.toarray()
+    path = 'dense-eig(<1000 or ndarray)' if (n < 1000 or cont == 'ndarray') else 'arpack(>=1000 sparse)'
+
+    def snap(a):
+        d = a.copy().toarray() if sp.issparse(a) else np.asarray(a)
+        return (type(a).__name__, str(a.dtype), a.shape, d.tobytes())
+
+    for call in range(calls):
+        arg = arg0.copy()
+        before = snap(arg)
+        ctx.case(dict(rep, call=call, builder='normalize'), nontrivial=True,
+                 tags=['large-sparse', 'large:kind=' + kind, 'large:n=%d' % n, 'large:container=' + cont,
+                       'large:path=' + path])
+        try:
+            with warnings.catch_warnings():
+                warnings.simplefilter('ignore')
+                Co, T, pi = builders.normalize(arg, calculate_eq_probs=True)
+        except Exception as e:  # noqa
+            ctx.violation('builders.normalize(%s, n=%d, %s chain, calculate_eq_probs=True) raised %s: %s'
+                          % (cont, n, kind, type(e).__name__, str(e)[:120]), rep)
+            return
+        if snap(arg) != before:
+            ctx.violation('builders.normalize modified the caller\'s matrix (%s, n=%d)' % (cont, n), rep)
+        if container_name(T) != cont or container_name(Co) != cont:
+            ctx.violation('builders.normalize: input container %s (n=%d) -> returned (%s, %s)'
+                          % (cont, n, container_name(Co), container_name(T)), rep)
+        Tc = sp.csr_matrix(T) if sp.issparse(T) else sp.csr_matrix(np.asarray(T))
+        if abs(Tc - Texp).max() > 1e-12:
+            ctx.violation('builders.normalize: T differs from counts / row totals (n=%d, %s)' % (n, cont), rep)
+            return
+        if np.max(np.abs(np.asarray(Tc.sum(axis=1)).ravel() - 1)) > 1e-9:
+            ctx.violation('builders.normalize: rows of T do not sum to 1 (n=%d)' % n, rep)
+            return
+        if pi is None or isinstance(pi, np.matrix) or np.asarray(pi).shape != (n,) or np.iscomplexobj(pi):
+            ctx.violation('builders.normalize: populations are not a real vector of length n (n=%d, %s)'
+                          % (n, cont), rep)
+            return
+        pi = np.asarray(pi, dtype=float)
+        resid = float(np.max(np.abs(Tc.T @ pi - pi))) if np.all(np.isfinite(pi)) else float('inf')
+        if not np.all(np.isfinite(pi)) or abs(pi.sum() - 1) > TOL_LARGE_STAT or pi.min() < -1e-10 \
+                or resid > TOL_LARGE_STAT:
+            ctx.violation('builders.normalize(%s, n=%d, %s chain), call %d of %d on the same matrix: populations are '
+                          'not a stationary probability vector of the returned T (max|pi T - pi| = %.3g, sum = %.6g, '
+                          'min = %.3g); code path %s'
+                          % (cont, n, kind, call + 1, calls, resid, pi.sum(), pi.min(), path), rep)
+            return
+        if np.max(np.abs(pi - pi0)) > TOL_LARGE_PI:
+            ctx.violation('builders.normalize(%s, n=%d, %s chain): populations differ from the direct solve by %.3g'
+                          % (cont, n, kind, np.max(np.abs(pi - pi0))), rep)
+            return
+    if with_dense and cont != 'ndarray':
+        # the numbers are the same for dense input (LAPACK path) and the sparse container
+        try:
+            with warnings.catch_warnings():
+                warnings.simplefilter('ignore')
+                _, Td, pid = builders.normalize(C.toarray(), calculate_eq_probs=True)
+            ctx.tag('large:dense-vs-sparse')
+            if np.max(np.abs(np.asarray(pid) - pi0)) > TOL_LARGE_PI or abs(sp.csr_matrix(Td) - Texp).max() > 1e-12:
+                ctx.violation('builders.normalize: ndarray input (n=%d, %s) gives different numbers than the sparse '
+                              'input / the direct solve' % (n, kind), dict(rep, container='ndarray'))
+        except Exception as e:  # noqa
+            ctx.violation('builders.normalize(ndarray, n=%d) raised %s' % (n, type(e).__name__),
+                          dict(rep, container='ndarray'))
+    # transpose once: populations from the symmetrised row sums
+    if cont != 'ndarray':
+        arg = arg0.copy()
+        before = snap(arg)
+        ctx.case(dict(rep, builder='transpose'), nontrivial=True, tags=['large-sparse', 'large:transpose'])
+        try:
+            with warnings.catch_warnings():
+                warnings.simplefilter('ignore')
+                Co, T, pi = builders.transpose(arg, calculate_eq_probs=True)
+        except Exception as e:  # noqa
+            ctx.violation('builders.transpose(%s, n=%d) raised %s: %s' % (cont, n, type(e).__name__, str(e)[:100]), rep)
+            return
+        if snap(arg) != before:
+            ctx.violation('builders.transpose modified the caller\'s matrix (%s, n=%d)' % (cont, n), rep)
+        if container_name(T) != cont or container_name(Co) != cont:
+            ctx.violation('builders.transpose: input container %s (n=%d) -> returned (%s, %s)'
+                          % (cont, n, container_name(Co), container_name(T)), rep)
+        S = (C + C.T).astype(float).tocsr()
+        srs = np.asarray(S.sum(axis=1)).ravel()
+        Ts = (sp.diags(1.0 / srs) @ S).tocsr()
+        Tc = sp.csr_matrix(T)
+        pi = np.asarray(pi, dtype=float)
+        F = sp.diags(pi) @ Tc
+        if abs(Tc - Ts).max() > 1e-12 or abs(sp.csr_matrix(Co) - S / 2.0).max() > 1e-9 or pi.shape != (n,) \
+                or abs(pi.sum() - 1) > 1e-9 or pi.min() < 0 or np.max(np.abs(Tc.T @ pi - pi)) > 1e-9 \
+                or abs(F - F.T).max() > 1e-12:
+            ctx.violation('builders.transpose(%s, n=%d): T / counts / populations / detailed balance wrong' % (cont, n), rep)
+
+
+def large_sparse_family(ctx):
+    conts = ['csr_matrix', 'csc_matrix', 'coo_matrix', 'lil_matrix', 'dok_matrix', 'bsr_matrix']
+    plan = []
+    # threshold straddle with the same periodic structure
+    for k, n in enumerate([999, 1000, 1001]):
+        plan.append((n, 'periodic-%d' % [3, 2, 4][k], conts[k], 2 if n < 1000 else 5, n == 1000))
+    sizes = [1024, 1500, 2048, 1000, 1001]
+    kinds = ['periodic-2', 'periodic-3', 'periodic-4', 'periodic-6', 'near-periodic-3', 'near-periodic-2',
+             'metastable-blocks', 'aperiodic-random']
+    reps = ctx.n(1, 4)
+    i = 0
+    for r in range(reps):
+        for kind in kinds:
+            n = sizes[i % len(sizes)]
+            cont = conts[(i + r) % len(conts)]
+            calls = 5 if kind.startswith('periodic') else 2
+            plan.append((n, kind, cont, calls, False))
+            i += 1
+    for n, kind, cont, calls, with_dense in plan:
+        gseed = int(ctx.rng.integers(0, 2 ** 31))
+        check_large(ctx, gseed, n, kind, cont, calls, with_dense=with_dense)
+        if sum(1 for v in ctx.violations if v.get('key') is None) >= 12:
+            break
+
+
 def scipy_table(ctx):
     """re-measure the scipy container facts the decision table assumes"""
     import scipy.sparse as sp
@@ -461,6 +683,7 @@ def run_matrix(ctx, C, priors, conts, zero_row=False, builders_=BUILDERS, calcs=
 
 def run(ctx):
     scipy_table(ctx)
+    large_sparse_family(ctx)
     import stage
     facts = builders_site_facts(stage.REPO)
     ctx.note('builders_site', facts)
@@ -523,6 +746,9 @@ def run(ctx):
 
 
 def replay(ctx, data):
+    if data.get('family') == 'large-sparse':
+        check_large(ctx, data['gseed'], data['n'], data['kind'], data['container'], data.get('calls', 5))
+        return
     if 'builder' not in data:
         scipy_table(ctx)
         return
